@@ -208,7 +208,13 @@ func runCase(t *testing.T, c Case) kit.Verdict {
 						end := to.Ancestor(min(to.Height, int32(tipH)+1+int32(a.Param%5)))
 						nodes := kit.Segment(int32(tipH), end)
 						muts := kit.HeaderMuts
-						p.SendHeaders(w.Batch(nodes, (k+a.Param)%len(nodes), muts[(k+a.Param)%len(muts)]))
+						mk := (k + a.Param) % len(nodes)
+						p.SendHeaders(w.Batch(nodes, mk, muts[(k+a.Param)%len(muts)]))
+						if mk >= 1 && k%2 == 0 {
+							// chase: the honest continuation right
+							// behind the batch's valid prefix
+							p.SendHeaders(w.Batch(nodes[mk:], -1, ""))
+						}
 						hmu.Lock()
 						harmful = true
 						hmu.Unlock()
